@@ -6,7 +6,9 @@
 //!
 //! Case lines: `m <document>` where a document is the token sequence
 //!   n | t | f | i<decimal> | i<decimal>:<i8|i16|i32|i64|u8|u16|u32|u64> (suffixed literal)
-//!   | d+<float literal> | d-<float literal> | $<hex cps>
+//!   | d<+|-><float literal>[f32|f64]=<reference spelling> | $<hex cps>
+//!     (a float literal of any spelling; the reference spelling -- shortest digits of the f64 /
+//!     f32 it denotes, lexical's layout -- is its JSON text: the literal passes through the float)
 //!   | [ doc* ] | [ doc* ]+            (`]+` = written with a trailing comma)
 //!   | { (key doc)* } | { (key doc)* }+
 //!   key = k<hex> (string literal) | p<hex> (parenthesised literal) | v<hex> (a `&str`
@@ -65,13 +67,33 @@ fn int_in_range(z: i128, ty: Option<ITy>) -> bool {
     t.min() <= z && z <= t.max()
 }
 
+#[derive(Clone, Copy, Debug, PartialEq)]
+pub enum FTy {
+    F32,
+    F64,
+}
+
+impl FTy {
+    pub fn name(self) -> &'static str {
+        match self {
+            FTy::F32 => "f32",
+            FTy::F64 => "f64",
+        }
+    }
+}
+
+fn sfx_name(s: Option<FTy>) -> &'static str {
+    s.map(|t| t.name()).unwrap_or("")
+}
+
 #[derive(Clone, Debug, PartialEq)]
 pub enum Doc {
     Null,
     Bool(bool),
     /// value and optional type suffix; a negative value is written `-<magnitude><suffix>`
     Int(i128, Option<ITy>),
-    Float(bool, String),
+    /// sign, the literal as written, its suffix, the reference spelling of the float it denotes
+    Float(bool, String, Option<FTy>, String),
     Str(String),
     Arr(Vec<Doc>, bool),
     Obj(Vec<(KForm, String, Doc)>, bool),
@@ -86,7 +108,7 @@ pub fn enc_doc(d: &Doc, out: &mut String) {
         Doc::Bool(false) => out.push('f'),
         Doc::Int(z, None) => write!(out, "i{z}").unwrap(),
         Doc::Int(z, Some(t)) => write!(out, "i{z}:{}", t.name()).unwrap(),
-        Doc::Float(neg, s) => write!(out, "d{}{}", if *neg { '-' } else { '+' }, s).unwrap(),
+        Doc::Float(neg, s, sfx, r) => write!(out, "d{}{}{}={}", if *neg { '-' } else { '+' }, s, sfx_name(*sfx), r).unwrap(),
         Doc::Str(s) => {
             out.push('$');
             out.push_str(&hex_str(s));
@@ -118,8 +140,10 @@ pub fn enc_doc(d: &Doc, out: &mut String) {
     }
 }
 
-fn is_float_literal(s: &str) -> bool {
-    // int part without a leading zero, then a fraction and/or an exponent; nothing else
+/// Float literal syntax used here (all forms verified to compile): digits, an optional
+/// fraction `.digits`, an optional exponent `e|E [+|-] digits` (leading zeros allowed); plain
+/// digits are a float literal only with a suffix.
+fn is_float_literal(s: &str, sfx: Option<FTy>) -> bool {
     let b = s.as_bytes();
     let mut i = 0;
     let digits = |i: &mut usize| {
@@ -129,8 +153,7 @@ fn is_float_literal(s: &str) -> bool {
         }
         *i - st
     };
-    let n = digits(&mut i);
-    if n == 0 || (n > 1 && b[0] == b'0') {
+    if digits(&mut i) == 0 {
         return false;
     }
     let mut frac_or_exp = false;
@@ -151,15 +174,12 @@ fn is_float_literal(s: &str) -> bool {
         }
         frac_or_exp = true;
     }
-    frac_or_exp && i == b.len()
+    (frac_or_exp || sfx.is_some()) && i == b.len()
 }
 
-/// The spelling a shortest-round-trip writer with lexical's layout gives to a positive finite
-/// double: std's `{:e}` digits (shortest, closest), positional notation for decimal exponents
-/// -5..=9, scientific otherwise.  Independent of the crate under test (the Coq reference
-/// Model/MacroFloat.lexical_f64 is the same function; the run cross-checks the two).
-fn ref_spelling(f: f64) -> String {
-    let e = format!("{:e}", f);
+/// lexical's layout of shortest digits given as std's `{:e}` output: positional notation for
+/// decimal exponents -5..=9 (an integral value has no ".0"), scientific otherwise.
+fn layout(e: &str) -> String {
     let (m, x) = e.split_once('e').unwrap();
     let x: i32 = x.parse().unwrap();
     let digits: String = m.chars().filter(|c| c.is_ascii_digit()).collect();
@@ -180,21 +200,99 @@ fn ref_spelling(f: f64) -> String {
     }
 }
 
-fn impl_spelling(f: f64) -> Option<String> {
-    json_syntax::NumberBuf::try_from(f).ok().map(|n| n.as_str().to_string())
+/// When the float whose shortest digits are `e` (std's `{:e}` output, which takes the larger of
+/// two equally close candidates) lies exactly half-way between that candidate and the one
+/// below it, the digits of the lower candidate.  A tie is recognised on the exact decimal
+/// expansion `exact` (`{:.Ne}` with N beyond the last non-zero digit).
+fn exact_tie(e: &str, exact: &str) -> Option<String> {
+    let m = e.split('e').next().unwrap();
+    let digits: String = m.chars().filter(|c| c.is_ascii_digit()).collect();
+    let k = digits.len();
+    let d: u64 = digits.parse().ok()?;
+    if k > 17 || d <= 10u64.pow(k as u32 - 1) {
+        return None;
+    }
+    let lower = format!("{:0k$}", d - 1);
+    let ed: String = exact.split('e').next().unwrap().chars().filter(|c| c.is_ascii_digit()).collect();
+    if ed[..k] == lower && ed.as_bytes()[k] == b'5' && ed[k + 1..].bytes().all(|c| c == b'0') {
+        Some(lower)
+    } else {
+        None
+    }
 }
 
-/// Float literals accepted in case lines: literals common to Rust and JSON that are the
-/// reference spelling of the double they denote, or the crate's own spelling of it (the two
-/// differ on the class of known finding C19-lexical-not-shortest).
-fn float_in_domain(s: &str) -> bool {
-    if !is_float_literal(s) {
-        return false;
+fn sci(digits: &str, x: &str) -> String {
+    let t = digits.trim_end_matches('0');
+    let t = if t.is_empty() { "0" } else { t };
+    if t.len() == 1 {
+        format!("{t}e{x}")
+    } else {
+        format!("{}.{}e{x}", &t[..1], &t[1..])
     }
-    match s.parse::<f64>() {
-        Ok(f) if f.is_finite() && f > 0.0 => ref_spelling(f) == s || impl_spelling(f).as_deref() == Some(s),
-        _ => false,
+}
+
+/// Shortest digits (as `d.ddde[-]x`) of a positive finite double: std's, except that of two
+/// equally close candidates the EVEN one is taken (std takes the larger; lexical and the Coq
+/// reference Spec/EcmaNumber.nks the even one).  None for a power of two on an exact tie: at a
+/// binade boundary the dependency breaks ties its own way (the single 2^-12 is spelt
+/// 0.00024414062), so such floats have no canonical spelling and are left out of the domain.
+fn shortest_f64(f: f64) -> Option<String> {
+    let e = format!("{:e}", f);
+    if let Some(lower) = exact_tie(&e, &format!("{:.800e}", f)) {
+        if f.to_bits() & ((1u64 << 52) - 1) == 0 {
+            return None;
+        }
+        let x = e.split_once('e').unwrap().1;
+        let last_odd = (e.split('e').next().unwrap().bytes().filter(|c| c.is_ascii_digit()).last().unwrap() - b'0') % 2 == 1;
+        let cand = sci(&lower, x);
+        if last_odd && cand.parse::<f64>() == Ok(f) {
+            return Some(cand);
+        }
     }
+    Some(e)
+}
+
+/// The same for a single: std's digits (the larger on a tie, as lexical and the Coq reference
+/// Model/Serde.fmt_sf chk32); None for a power of two on an exact tie.
+fn shortest_f32(f: f32) -> Option<String> {
+    let e = format!("{:e}", f);
+    if exact_tie(&e, &format!("{:.200e}", f)).is_some() && f.to_bits() & ((1u32 << 23) - 1) == 0 {
+        return None;
+    }
+    Some(e)
+}
+
+/// The reference spelling of the float a literal denotes -- its JSON text: the literal's
+/// digits are rounded to the nearest f64 / f32 (std's `parse`, correctly rounded, as rustc
+/// does), that float is spelt with the shortest digits that read back as it, in lexical's
+/// layout; zero is `0` (the sign is carried by the `-` of the document).  Independent of
+/// the crate under test; the Coq reference Model/MacroFloat.lexical_float is the same
+/// function and the run cross-checks the two.  None: the literal overflows its type (it does
+/// not compile), or it denotes a power of two on an exact tie (left out of the domain).
+fn reference(lit: &str, sfx: Option<FTy>) -> Option<String> {
+    match sfx.unwrap_or(FTy::F64) {
+        FTy::F64 => {
+            let f: f64 = lit.parse().ok()?;
+            if !f.is_finite() {
+                return None;
+            }
+            Some(if f == 0.0 { "0".to_string() } else { layout(&shortest_f64(f)?) })
+        }
+        FTy::F32 => {
+            let f: f32 = lit.parse().ok()?;
+            if !f.is_finite() {
+                return None;
+            }
+            Some(if f == 0.0 { "0".to_string() } else { layout(&shortest_f32(f)?) })
+        }
+    }
+}
+
+fn float_doc(neg: bool, lit: &str, sfx: Option<FTy>) -> Option<Doc> {
+    if !is_float_literal(lit, sfx) {
+        return None;
+    }
+    Some(Doc::Float(neg, lit.to_string(), sfx, reference(lit, sfx)?))
 }
 
 fn dec_doc<'a>(t: &'a [&'a str]) -> Option<(Doc, &'a [&'a str])> {
@@ -252,10 +350,19 @@ fn dec_doc<'a>(t: &'a [&'a str]) -> Option<(Doc, &'a [&'a str])> {
             Some((Doc::Int(z, ty), r))
         }
         x if x.starts_with("d+") || x.starts_with("d-") => {
-            if !float_in_domain(&x[2..]) {
-                return None;
+            let (l, want) = x[2..].split_once('=')?;
+            let (lit, sfx) = if let Some(p) = l.strip_suffix("f32") {
+                (p, Some(FTy::F32))
+            } else if let Some(p) = l.strip_suffix("f64") {
+                (p, Some(FTy::F64))
+            } else {
+                (l, None)
+            };
+            let d = float_doc(x.as_bytes()[1] == b'-', lit, sfx)?;
+            match &d {
+                Doc::Float(_, _, _, rr) if rr == want => Some((d, r)),
+                _ => None,
             }
-            Some((Doc::Float(x.as_bytes()[1] == b'-', x[2..].to_string()), r))
         }
         x if x.starts_with('$') => {
             let s = std::panic::catch_unwind(|| parse_hex_string(&x[1..])).ok()?;
@@ -331,7 +438,7 @@ fn tokens_src(d: &Doc, style: &mut Rng, vars: &mut BTreeSet<String>, out: &mut S
         Doc::Null => out.push_str("null"),
         Doc::Bool(b) => write!(out, "{b}").unwrap(),
         Doc::Int(z, ty) => write!(out, "{z}{}", ty.map(|t| t.name()).unwrap_or("")).unwrap(),
-        Doc::Float(neg, s) => write!(out, "{}{}", if *neg { "-" } else { "" }, s).unwrap(),
+        Doc::Float(neg, s, sfx, _) => write!(out, "{}{}{}", if *neg { "-" } else { "" }, s, sfx_name(*sfx)).unwrap(),
         Doc::Str(s) => out.push_str(&rust_str_lit(s, style.next())),
         Doc::Arr(l, tc) => {
             out.push('[');
@@ -399,7 +506,7 @@ pub fn text(d: &Doc, out: &mut String) {
         Doc::Null => out.push_str("null"),
         Doc::Bool(b) => write!(out, "{b}").unwrap(),
         Doc::Int(z, _) => write!(out, "{z}").unwrap(),
-        Doc::Float(neg, s) => write!(out, "{}{}", if *neg { "-" } else { "" }, s).unwrap(),
+        Doc::Float(neg, _, _, r) => write!(out, "{}{}", if *neg { "-" } else { "" }, r).unwrap(),
         Doc::Str(s) => json_quote(s, out),
         Doc::Arr(l, _) => {
             out.push('[');
@@ -555,9 +662,7 @@ fn one_line(s: &str) -> String {
         .or_else(|| s.lines().find(|l| !l.trim().is_empty()))
         .unwrap_or("");
     let t: Vec<&str> = first.split_whitespace().collect();
-    let mut r = t.join(" ");
-    r.truncate(240);
-    r
+    t.join(" ").chars().take(240).collect()
 }
 
 pub struct Toolchain {
@@ -681,6 +786,13 @@ fn isolate(tc: &Toolchain, name: &str, docs: &[&Doc], seed: u64, msg: &str, budg
     }
     let mid = docs.len() / 2;
     for (j, half) in [&docs[..mid], &docs[mid..]].into_iter().enumerate() {
+        if *budget == 0 {
+            // the first half used up the budget
+            for _ in half {
+                out.push(format!("COMPILE-ERROR (in a batch of {}) {msg}", docs.len()));
+            }
+            continue;
+        }
         *budget -= 1;
         let n = format!("{name}_{j}");
         match compile_run(tc, &n, half, seed) {
@@ -809,40 +921,82 @@ fn int_bounds() -> Vec<Doc> {
     out
 }
 
-/// Doubles the dependency (lexical-write-float 1.0.6) does not spell with the shortest /
-/// closest digits (known finding C19-lexical-not-shortest), in the reference spelling and in
-/// the crate's own.
-const NOT_SHORTEST: [&str; 4] = ["2.675e21", "2.6750000000000003e21", "7.75e21", "7.750000000000001e21"];
+/// Float literals that are part of every run: zeros of both signs, integral floats inside and
+/// outside the i32 range, trailing zeros, exponent forms, leading zeros, f64- and f32-suffixed
+/// literals (integral ones above 2^24 and at 2^31 included), the extremes of both types; and
+/// witnesses of known finding C19-lexical-not-shortest (the last four).
+const FLOATS: [&str; 62] = [
+    "-0.0", "0.0", "5.0", "-7.0", "2147483647.0", "2147483648.0", "-2147483648.0", "-2147483649.0", "1e10", "-1e10", "1e5",
+    "1.50", "-1.50", "100.0", "1E3", "1e+3", "2.5e-3", "0.5e1", "00.5", "01e2", "1.5", "0.1", "1e21", "1e-7", "2.5e10",
+    "0.00001", "0.000001", "9999999999.5", "5e-324", "1.7976931348623157e308", "0.3", "16777217.0", "4294967296.0",
+    "1.5f64", "3f64", "1e3f64", "-0f64", "-0.0f64",
+    "123456792f32", "2147483648f32", "-2147483648f32", "2147483520f32", "16777217.0f32", "16777217f32", "33554436f32",
+    "1e10f32", "2.5e-3f32", "0.1f32", "1f32", "-0.0f32", "0.0f32", "-0f32", "5.0f32", "-7f32", "100000f32", "1.50f32",
+    "3.4028235e38f32", "1e-45f32",
+    "2.675e21", "7.75e21", "1.1e10f32", "412390020f32",
+];
 
-/// A float literal of the domain: the reference spelling of some double, kept when it is a
-/// float literal (integral values below 1e10 are spelt as integers).
-fn gen_float(r: &mut Rng) -> String {
-    const FIXED: [&str; 10] = ["1.5", "0.1", "1e21", "1e-7", "2.5e10", "0.00001", "9999999999.5", "5e-324", "1.7976931348623157e308", "0.3"];
+fn fixed_float(s: &str) -> Doc {
+    let (neg, rest) = match s.strip_prefix('-') {
+        Some(r) => (true, r),
+        None => (false, s),
+    };
+    let (lit, sfx) = if let Some(p) = rest.strip_suffix("f32") {
+        (p, Some(FTy::F32))
+    } else if let Some(p) = rest.strip_suffix("f64") {
+        (p, Some(FTy::F64))
+    } else {
+        (rest, None)
+    };
+    float_doc(neg, lit, sfx).unwrap_or_else(|| panic!("fixed float literal {s}"))
+}
+
+/// A float literal of ANY spelling: some double (eight classes) or single, written in one of
+/// several styles, with or without a suffix.
+fn gen_float(r: &mut Rng, neg: bool) -> Doc {
     loop {
-        let f: f64 = match r.below(8) {
-            0 => return r.pick(&FIXED).to_string(),
-            1 => (r.below(100000) as f64) / 10f64.powi(r.below(8) as i32),
-            2 => (1 + r.below(9999)) as f64 * 10f64.powi(r.range(0, 60) as i32 - 30),
-            3 => f64::from_bits(r.next() & 0x7fff_ffff_ffff_ffff),
-            4 => 2f64.powi(r.range(0, 200) as i32 - 100),
-            5 => (r.next() >> 11) as f64 * 10f64.powi(r.range(0, 40) as i32 - 25),
-            6 => *r.pick(&[1e-5, 1e-6, 9.5e-6, 1.5e-5, 1e9 + 0.5, 1e10, 1.25e10, 9.9999999995e9, 123456789.125, 1e22, 1e23, 4.35, 0.000001234]),
-            _ => (r.below(2000) as f64 - 1000.0) / 8.0,
-        };
-        let f = f.abs();
-        if !f.is_finite() || f == 0.0 {
-            continue;
-        }
-        // the reference spelling; where two spellings of the same length are equally close
-        // (std and lexical break such ties differently) the one the crate re-spells as itself
-        let mut s = ref_spelling(f);
-        if let Some(i) = impl_spelling(f) {
-            if i != s && i.len() == s.len() {
-                s = i;
+        if r.chance(1, 8) {
+            let d = fixed_float(*r.pick(&FLOATS[..]));
+            if let Doc::Float(_, l, s, rr) = d {
+                return Doc::Float(neg, l, s, rr);
             }
         }
-        if float_in_domain(&s) {
-            return s;
+        let f: f64 = match r.below(9) {
+            0 => (r.below(100000) as f64) / 10f64.powi(r.below(8) as i32),
+            1 => (1 + r.below(9999)) as f64 * 10f64.powi(r.range(0, 60) as i32 - 30),
+            2 => f64::from_bits(r.next() & 0x7fff_ffff_ffff_ffff),
+            3 => 2f64.powi(r.range(0, 200) as i32 - 100),
+            4 => (r.next() >> 11) as f64 * 10f64.powi(r.range(0, 40) as i32 - 25),
+            5 => *r.pick(&[1e-5, 1e-6, 9.5e-6, 1.5e-5, 1e9 + 0.5, 1e10, 1.25e10, 9.9999999995e9, 123456789.125, 1e22, 1e23, 4.35, 0.000001234]),
+            6 => (r.below(2000) as f64 - 1000.0) / 8.0,
+            7 => (r.next() >> r.range(20, 63)) as f64,                       // integral
+            _ => f32::from_bits((r.next() as u32) & 0x7fff_ffff) as f64,     // a single
+        };
+        let f = f.abs();
+        if !f.is_finite() {
+            continue;
+        }
+        let lit = match r.below(7) {
+            0 => format!("{:?}", f),
+            1 => format!("{:e}", f),
+            2 => format!("{:E}", f).replace('E', if r.chance(1, 2) { "E+" } else { "e" }).replace("E+-", "E-"),
+            3 if f < 1e15 && f > 1e-6 => format!("{:.*}", r.range(1, 8), f),
+            4 if f < 1e15 => format!("{}.0", f.round()),
+            5 if f < 1e15 => format!("{}", f.round()),                       // plain digits: needs a suffix
+            _ => match reference(&format!("{:e}", f), None) {
+                Some(x) => x,
+                None => continue,
+            },
+        };
+        let plain = lit.bytes().all(|c| c.is_ascii_digit());
+        let sfx = match r.below(10) {
+            0 => Some(FTy::F64),
+            1 | 2 | 3 => Some(FTy::F32),
+            _ if plain => Some(if r.chance(1, 2) { FTy::F32 } else { FTy::F64 }),
+            _ => None,
+        };
+        if let Some(d) = float_doc(neg, &lit, sfx) {
+            return d;
         }
     }
 }
@@ -853,7 +1007,7 @@ fn gen_leaf(r: &mut Rng) -> Doc {
         1 => Doc::Bool(true),
         2 => Doc::Bool(false),
         3 | 4 => gen_int(r),
-        5 | 6 => Doc::Float(r.chance(1, 3), gen_float(r)),
+        5 | 6 => { let neg = r.chance(1, 3); gen_float(r, neg) }
         _ => Doc::Str(gen_string(r)),
     }
 }
@@ -899,8 +1053,8 @@ fn kinds(r: &mut Rng) -> Vec<Doc> {
         Doc::Bool(false),
         if r.chance(1, 2) { Doc::Int(gen_i32(r).abs().min(i32::MAX as i128), None) } else { Doc::Int(gen_typed(r, ITy::U64).max(1 << 63), Some(ITy::U64)) },
         if r.chance(1, 2) { Doc::Int(-1 - gen_i32(r).abs().min(i32::MAX as i128), None) } else { let t = *r.pick(&[ITy::I8, ITy::I16, ITy::I32, ITy::I64]); Doc::Int((-1 - gen_typed(r, t).abs()).max(t.min()), Some(t)) },
-        Doc::Float(false, gen_float(r)),
-        Doc::Float(true, gen_float(r)),
+        gen_float(r, false),
+        gen_float(r, true),
         Doc::Str(gen_string(r)),
         Doc::Arr(vec![], false),
         Doc::Arr(vec![Doc::Int(1, None), Doc::Arr(vec![Doc::Null], true)], r.chance(1, 2)),
@@ -917,9 +1071,19 @@ fn systematic(r: &mut Rng, full: bool) -> Vec<Doc> {
     for d in kinds(r) {
         out.push(d);
     }
-    for s in NOT_SHORTEST {
-        out.push(Doc::Arr(vec![Doc::Float(false, s.to_string())], false));
+    // the fixed float literals: as array items (eight per array) and as object values
+    for (i, c) in FLOATS.chunks(8).enumerate() {
+        out.push(Doc::Arr(c.iter().map(|s| fixed_float(s)).collect(), i % 2 == 0));
     }
+    out.push(Doc::Obj(
+        ["-0.0", "0.0", "-0.0f32", "123456792f32", "2147483648f32", "1.50", "2147483648.0", "1e5"]
+            .iter()
+            .enumerate()
+            .map(|(i, s)| ([KForm::Lit, KForm::Paren, KForm::Var, KForm::ParenVar][i % 4].clone(), "z".to_string(), fixed_float(s)))
+            .collect(),
+        true,
+    ));
+    out.push(fixed_float("-0.0"));
     out.extend(int_bounds());
     let mut n = 0usize;
     for tc in [false, true] {
@@ -977,6 +1141,8 @@ fn case_line(d: &Doc) -> String {
 /// implementation's results come from the compiled batch.
 pub fn gen_batch(args: &Args) {
     use std::io::Write;
+    // nothing of the implementation runs in this process: a panic here is a harness fault
+    std::panic::set_hook(Box::new(|i| eprintln!("c19 harness panic: {i}")));
     let docs: Vec<Doc> = documents(args).into_iter().enumerate().filter(|(i, _)| i % args.nshards == args.shard).map(|(_, d)| d).collect();
     std::fs::create_dir_all(&args.out).unwrap();
     let mut c = std::fs::File::create(format!("{}/cases.{}.txt", args.out, args.shard)).unwrap();
